@@ -433,8 +433,13 @@ func (a updateConnectorAction) update(ctx context.Context, cfg config.Connector)
 
 	// update processor IDs
 	if !a.isEqual(c.ProcessorIDs, cfg.Processors) {
+		// Make a copy of the connector processors, the instance value
+		// will be modified during removal and can cause side effects.
+		processorIDs := make([]string, len(c.ProcessorIDs))
+		_ = copy(processorIDs, c.ProcessorIDs)
+
 		// recreate all processor IDs
-		for _, procID := range c.ProcessorIDs {
+		for _, procID := range processorIDs {
 			_, err = a.connectorService.RemoveProcessor(ctx, cfg.ID, procID)
 			if err != nil {
 				return cerrors.Errorf("failed to remove processor %v: %w", procID, err)
